@@ -275,3 +275,54 @@ Proof.
   intros Hnl Hpre Hline. unfold status_pid. rewrite split_join; [|destruct pre; discriminate|exact Hnl].
   apply pid_of_lines_first; assumption.
 Qed.
+
+(* ------------------------------------------------------------------ Windows: every reason has a string *)
+Section WindowsStrings.
+Variable lk : Z -> Z -> bool.
+Variable nm : Z -> Z -> option (list Z).
+Hypothesis Hexc : forall v, lk EN_WIN_EXC v = true -> name_of NAMES_ExceptionCodeWindows v <> None.
+Hypothesis Herr : forall v, lk EN_WIN_ERROR v = true -> nm EN_WIN_ERROR v <> None.
+Hypothesis Hfac : forall v, lk EN_WIN_FACILITY v = true -> name_of NAMES_WinErrorFacilityWindows v <> None.
+Hypothesis Hacc : forall v, lk EN_WIN_ACCESS v = true -> name_of NAMES_ExceptionCodeWindowsAccessType v <> None.
+Hypothesis Hinp : forall v, lk EN_WIN_INPAGE v = true -> name_of NAMES_ExceptionCodeWindowsInPageErrorType v <> None.
+
+Lemma windows_general_some code : lk EN_WIN_EXC code = true -> reason_string_nm nm (WindowsGeneral, [code]) <> None.
+Proof.
+  intro H. cbn [reason_string_nm reason_string]. destruct (name_of NAMES_ExceptionCodeWindows code) eqn:E; [|exfalso; exact (Hexc _ H E)].
+  repeat match goal with |- context [if ?b then _ else _] => destruct b end; discriminate.
+Qed.
+
+Lemma windows_reason_string c e : reason_string_nm nm (crash_reason lk OsWindows c e) <> None.
+Proof.
+  change (crash_reason lk OsWindows c e) with (windows_reason lk e).
+  unfold windows_reason, windows_code.
+  destruct (lk EN_WIN_EXC (e_code e)) eqn:L1; cbn [fst].
+  - destruct (e_code e =? EXCEPTION_ACCESS_VIOLATION).
+    + destruct ((1 <=? e_nparams e) && lk EN_WIN_ACCESS (e_info0 e)) eqn:G; [|apply windows_general_some; exact L1].
+      apply andb_true_iff in G. destruct G as [_ G]. cbn [reason_string_nm reason_string]. unfold prefixed.
+      destruct (name_of NAMES_ExceptionCodeWindowsAccessType (e_info0 e)) eqn:E; [discriminate|exfalso; exact (Hacc _ G E)].
+    + destruct (e_code e =? EXCEPTION_IN_PAGE_ERROR); [|apply windows_general_some; exact L1].
+      destruct ((3 <=? e_nparams e) && lk EN_WIN_INPAGE (e_info0 e)) eqn:G; [|apply windows_general_some; exact L1].
+      apply andb_true_iff in G. destruct G as [_ G]. cbn [reason_string_nm].
+      destruct (name_of NAMES_ExceptionCodeWindowsInPageErrorType (e_info0 e)) eqn:E; [discriminate|exfalso; exact (Hinp _ G E)].
+  - destruct (lk EN_WIN_ERROR (e_code e)) eqn:L2; cbn [fst].
+    + cbn [reason_string_nm]. exact (Herr _ L2).
+    + destruct (lk EN_WIN_NTSTATUS (e_code e)) eqn:L3; cbn [fst].
+      * destruct ((e_code e =? STATUS_STACK_BUFFER_OVERRUN) && (1 <=? e_nparams e)); cbn [reason_string_nm reason_string]; discriminate.
+      * destruct (negb (Z.land (e_code e) 4026531840 =? 0) && lk EN_WIN_FACILITY (Z.shiftr (Z.land (e_code e) 268369920) 16) &&
+                  lk EN_WIN_ERROR (Z.land (e_code e) 65535)) eqn:G; cbn [fst].
+        -- apply andb_true_iff in G. destruct G as [G G2]. apply andb_true_iff in G. destruct G as [_ G1].
+           cbn [reason_string_nm].
+           destruct (name_of NAMES_WinErrorFacilityWindows (Z.shiftr (Z.land (e_code e) 268369920) 16)) eqn:E1; [|exfalso; exact (Hfac _ G1 E1)].
+           destruct (nm EN_WIN_ERROR (Z.land (e_code e) 65535)) eqn:E2; [discriminate|exfalso; exact (Herr _ G2 E2)].
+        -- cbn [reason_string_nm reason_string]. discriminate.
+Qed.
+
+(* the families the name function is not consulted for render as before *)
+Lemma reason_string_nm_small r : reason_string r <> None -> reason_string_nm nm r = reason_string r.
+Proof.
+  destruct r as [f p]. intro H.
+  destruct f; try reflexivity; cbn [reason_string] in H;
+    repeat (destruct p as [|? p]; try (exfalso; apply H; reflexivity)); try reflexivity.
+Qed.
+End WindowsStrings.
